@@ -439,10 +439,10 @@ impl<'a> Interpreter<'a> {
                             }
 
                             match callable {
-                                RsCallable::Function(func) => {
-                                    let arg_values = self.resolve_args(args)?;
-                                    stack.push_val(func(value, arg_values));
-                                }
+                                RsCallable::Function(func) => match self.resolve_args(args)? {
+                                    Ok(arg_values) => stack.push_val(func(value, arg_values)),
+                                    Err(failed) => stack.push_val(failed),
+                                },
                                 RsCallable::Macro(macro_) => {
                                     stack.push_val(self.call_macro(&value, &args, macro_)?);
                                 }
@@ -458,8 +458,11 @@ impl<'a> Interpreter<'a> {
                             match value {
                                 CelValue::Ident(func_name) => {
                                     if let Some(func) = self.get_func_by_name(&func_name) {
-                                        let arg_values = self.resolve_args(args)?;
-                                        stack.push_val(func(CelValue::from_null(), arg_values));
+                                        match self.resolve_args(args)? {
+                                            Ok(arg_values) => stack
+                                                .push_val(func(CelValue::from_null(), arg_values)),
+                                            Err(failed) => stack.push_val(failed),
+                                        }
                                     } else if let Some(macro_) = self.get_macro_by_name(&func_name)
                                     {
                                         stack.push_val(self.call_macro(
@@ -470,18 +473,24 @@ impl<'a> Interpreter<'a> {
                                     } else if let Some(CelValue::Type(type_name)) =
                                         self.get_type_by_name(&func_name)
                                     {
-                                        let arg_values = self.resolve_args(args)?;
-                                        stack.push_val(construct_type(type_name, arg_values));
+                                        match self.resolve_args(args)? {
+                                            Ok(arg_values) => {
+                                                stack.push_val(construct_type(type_name, arg_values))
+                                            }
+                                            Err(failed) => stack.push_val(failed),
+                                        }
                                     } else {
                                         stack.push_val(CelValue::from_err(CelError::runtime(
                                             &format!("{} is not callable", func_name),
                                         )));
                                     }
                                 }
-                                CelValue::Type(type_name) => {
-                                    let arg_values = self.resolve_args(args)?;
-                                    stack.push_val(construct_type(&type_name, arg_values));
-                                }
+                                CelValue::Type(type_name) => match self.resolve_args(args)? {
+                                    Ok(arg_values) => {
+                                        stack.push_val(construct_type(&type_name, arg_values))
+                                    }
+                                    Err(failed) => stack.push_val(failed),
+                                },
                                 other => stack.push_val(
                                     CelValue::from_err(CelError::runtime(&format!(
                                         "{:?} cannot be called",
@@ -552,16 +561,23 @@ impl<'a> Interpreter<'a> {
         Ok(res)
     }
 
-    fn resolve_args(&self, args: Vec<CelValue>) -> Result<Vec<CelValue>, CelError> {
+    /// Evaluates call arguments in order. The inner result is the first argument that
+    /// failed, as an error value: the call then fails with it. Only running out of depth
+    /// aborts the whole evaluation.
+    fn resolve_args(&self, args: Vec<CelValue>) -> CelResult<Result<Vec<CelValue>, CelValue>> {
         let mut arg_values = Vec::new();
         for arg in args.into_iter() {
             if let CelValue::ByteCode(bc) = arg {
-                arg_values.push(self.run_raw(&bc, true)?);
+                match self.run_raw(&bc, true) {
+                    Ok(v) => arg_values.push(v),
+                    Err(e) if Self::is_depth_exceeded(&e) => return Err(e),
+                    Err(e) => return Ok(Err(CelValue::from_err(e))),
+                }
             } else {
                 arg_values.push(arg)
             }
         }
-        Ok(arg_values)
+        Ok(Ok(arg_values))
     }
 
     fn get_param_by_name(&self, name: &str) -> Option<&'a CelValue> {
